@@ -269,24 +269,25 @@ def _row_selection_lemma(a, mask, ms_rows, out):
         return
     ctx = cur()
     msM = mask_selector(a)
-    msR = mask_selector(out)
+    # the selector of R is *defined* from the selector of M (no new symbols): K(R) = K(M),
+    # sel_R(p) = (rank_F(sel_M(p)_S), sel_M(p)_C), rank_R(r, c) = rank_M(sel_F(r), c)
+    msR = MaskSel.__new__(MaskSel)
+    msR.mask = out
+    msR.K = msM.K
+    msR.sel_f = None
+    msR.rank_f = None
+    msR.sel = lambda kk: [ms_rows.rank(msM.sel(kk)[:r])] + list(msM.sel(kk)[r:])
+    msR.rank = lambda idx: msM.rank(list(ms_rows.sel(idx[0])) + [lift(i) for i in idx[1:]])
     out._mask_identity = out
+    ctx.memo.setdefault("masksel", {})[id(out)] = (msR, out)
     p = z3.Int(ctx.fresh("rowsel.p"))
-    selM, selR = msM.sel(p), msR.sel(p)
+    selM = msM.sel(p)
     from .stubs.jnp_impl import _forall
     from .values import rowmajor
 
     N = rowmajor(a.zshape).N
-    body = z3.Implies(
-        z3.And(p >= 0, p < msM.K),
-        z3.And(
-            mask.get(tuple(selM[:r])),  # the row of a True entry is a row with some True entry
-            selR[0] == ms_rows.rank(selM[:r]),
-            *[selR[1 + q] == selM[r + q] for q in range(a.ndim - r)],
-        ),
-    )
-    ctx.assume(msR.K == msM.K, tag="counting-lemma")
-    ctx.assume(_forall([p], body, patterns=[z3.MultiPattern(*selM)] if len(selM) > 1 else [selM[0]], dims=[N]), tag="counting-lemma")
+    # the row of a True entry is a row with some True entry (a consequence of `any`, stated for triggers)
+    ctx.assume(_forall([p], z3.Implies(z3.And(p >= 0, p < msM.K), mask.get(tuple(selM[:r]))), patterns=[z3.MultiPattern(*selM)] if len(selM) > 1 else [selM[0]], dims=[N]), tag="counting-lemma")
     ctx.trusted.add("counting lemma (assumed; cross-checked natively): dropping all-False rows preserves the row-major enumeration of True entries")
 
 
